@@ -14,8 +14,8 @@
 (*                                        empty item, stray character ...  *)
 (*                   | [k |-> "any"]      shapes the documentation does    *)
 (*                                        not speak about (leading zeros,  *)
-(*                                        steps above max+1, name mixed    *)
-(*                                        with number in one range)        *)
+(*                                        steps above max+1, ranges that   *)
+(*                                        wrap around by name)             *)
 (***************************************************************************)
 EXTENDS Integers, Sequences, FiniteSets, Text, Civil
 
@@ -93,7 +93,7 @@ ParseItem(k, s) ==
             LET a == ParseValue(k, parts[1])  b == ParseValue(k, parts[2]) IN
             IF a.k = "err" \/ b.k = "err" THEN Bad
             ELSE IF a.k = "any" \/ b.k = "any" THEN Unspec
-            ELSE IF IsName(a) # IsName(b) THEN Unspec                 \* "1-Fri": not documented
+            ELSE IF IsName(a) # IsName(b) /\ a.v > b.v THEN Unspec   \* "6-Sun", "Sat-0": wrap-around not documented
             ELSE IF a.v > b.v THEN (IF IsName(a) \/ (k = 5 /\ a.v = 7) THEN Unspec ELSE Bad)
                                                                        \* "Fri-Mon", "7-1": wrap-around not documented
             ELSE [k |-> "ok", set |-> {NormDow(k, v) : v \in a.v..b.v}]
